@@ -62,6 +62,9 @@ class Predicates:
             if e['n'] in env:
                 return env[e['n']]
             return None
+        if k in ('MemberExpr', 'ArraySubscriptExpr'):
+            t = F.src(e)
+            return env.get(t)
         if k == 'IntegerLiteral':
             return e.get('v')
         if k == 'UnaryOperator' and e['op'] == '!':
